@@ -13,6 +13,9 @@ A case is plain JSON:
   ops     : [action..]      the top level program
   dkind   : 'plain' (EventDispatcher) | 'world' (a World used through its dispatcher API)
 Actions: ['add',h] ['remove',h] ['is',h] ['dispatch',e,a] ['enable',0|1] ['clear'] ['raise'] ['drop',h]
+         World components (holder 'ctl', dispatcher = World): ['create',h] ['removec',h] ['replace',h,h2]
+         (skipped, and logged as skipped, when their precondition does not hold)
+Event 90 is the name 'on_add' (a class mapping it makes its instances Controller-like).
 
 Names are 'n<i>' for events and methods alike.  Every dispatch passes a
 fresh token first, then the positional / keyword arguments of shape a.
@@ -20,8 +23,33 @@ fresh token first, then the positional / keyword arguments of shape a.
 from harness.core import z, b, lst, opt
 
 # argument shapes: code -> (args, kwargs) passed after the token
-ARGS = [((), {}), ((7,), {}), ((7, 8), {}), ((), {'k': 1}), ((7,), {'k': 1, 'j': 2}),
-        ((8, 7), {'j': 1})]
+# argument shapes: code -> (how the token travels, args, kwargs).  'pos': the token is the
+# first positional argument, followed by args; 'kw': the call has NO positional argument at all,
+# the token is the keyword argument tok=...  Values include None / 0 / '' / () / tuples.
+ARGS = [('pos', (), {}), ('pos', (7,), {}), ('pos', (7, 8), {}), ('pos', (), {'k': 1}),
+        ('pos', (7,), {'k': 1, 'j': 2}), ('pos', (8, 7), {'j': 1}),
+        ('kw', (), {}), ('kw', (), {'k': None}), ('kw', (), {'k': 0, 'j': ''}),
+        ('kw', (), {'k': (1, 2), 'j': None, 'i': 0}),
+        ('pos', (None,), {}), ('pos', (0, ''), {'k': ()}), ('pos', ((1, 2), None), {'k': ''})]
+RELAY = 99           # code of the arguments (entity, world) of a relayed on_add
+
+
+def arg_code(mode, args, kwargs):
+    for i, (md, a, k) in enumerate(ARGS):
+        if md == mode and repr(tuple(args)) == repr(a) and repr(sorted(kwargs.items())) == repr(sorted(k.items())):
+            return i
+    return -1
+
+
+ON_ADD = 90
+
+
+def ename(i):
+    return 'on_add' if i == ON_ADD else 'n%d' % i
+
+
+def enum(name):
+    return ON_ADD if name == 'on_add' else int(name[1:])
 
 
 class ScriptError(Exception):
@@ -34,11 +62,6 @@ def bases_of(c):
     return [] if c.get('base') is None else [c['base']]
 
 
-def arg_code(args, kwargs):
-    for i, (a, k) in enumerate(ARGS):
-        if tuple(args) == a and dict(kwargs) == k:
-            return i
-    return -1
 
 
 # --------------------------------------------------------------- running
@@ -61,8 +84,10 @@ class Runner:
             for m, acts in ms:
                 self.scripts[(h, m)] = acts
         self.cls_obs = []
+        self.setup = True
         self.build_classes()
         self.build_handlers()
+        self.setup = False
 
     # classes, built with type() and decorated with desper.event_handler
     def build_classes(self):
@@ -97,7 +122,7 @@ class Runner:
                     k.hid = dataclasses.field(default=0, compare=False)
                 k = dataclasses.dataclass(frozen=True)(k)
             k2 = self.desper.event_handler(*['n%d' % n for n in c['names']],
-                                           **{'n%d' % e: 'n%d' % m for e, m in c['maps']})(k)
+                                           **{ename(e): 'n%d' % m for e, m in c['maps']})(k)
             self.decorator_returned_cls = getattr(self, 'decorator_returned_cls', True) and k2 is k
             self.classes.append(k2)
             self.mro_obs.append([self.classes.index(x) for x in k2.__mro__ if x in self.classes])
@@ -109,7 +134,7 @@ class Runner:
         if d is None:
             return None
         try:
-            return sorted([int(e[1:]), int(m[1:])] for e, m in d.items())
+            return sorted([enum(e), int(m[1:])] for e, m in d.items())
         except Exception:
             return [[-1, -1]]
 
@@ -122,6 +147,12 @@ class Runner:
         self.ents = {}
         self.wrefs = {}
         self.styles = {}
+        self.ctl = set()          # Controller-like components, not yet in the World
+        self.rows = {}            # ctl handler -> (entity, class) while a World row holds it
+        self.spent = set()
+        self.relay_tok = {}
+        self.delivered = set()
+        self.checked = set()
         eqs = dict((h, h0) for h, h0 in case.get('eqs', []))
         for i, ci in enumerate(case['hcls']):
             h = i + 1
@@ -133,8 +164,10 @@ class Runner:
                 o.hid = h
             self.wrefs[h] = self.weakref.ref(o)
             holder = case.get('holder', ['var'] * len(case['hcls']))[i]
-            if holder == 'var':
+            if holder in ('var', 'ctl'):
                 self.objs[h] = o
+                if holder == 'ctl':
+                    self.ctl.add(h)
             elif holder == 'w2':
                 if self.w2 is None:
                     self.w2 = desper.World()
@@ -148,11 +181,15 @@ class Runner:
     def obj(self, h):
         if h in self.objs:
             return self.objs[h]
+        if h in self.rows:
+            return self.d.get_component(*self.rows[h])
         w, e, k = self.ents[h]
         return w.get_component(e, k)
 
     # a callback was entered
     def on_call(self, receiver, m, args, kwargs, defcls=None):
+        if self.setup:
+            return               # on_add of a component placed in a World row before the program starts
         h = -1 if receiver is None else getattr(receiver, 'hid', -2)
         if receiver is not None and defcls is not None:
             # Python's own method resolution: the function that ran must be the one the
@@ -161,8 +198,17 @@ class Runner:
             want = next((k for k in type(receiver).__mro__ if name in k.__dict__), None)
             if want is not self.classes[defcls]:
                 self.log.append(['error', 'wrong-function', name])
-        tok = args[0] if args and isinstance(args[0], int) else -1
-        self.log.append(['call', h, m, tok, arg_code(args[1:], kwargs)])
+        if len(args) == 2 and args[1] is self.d and not kwargs and m == ON_ADD:
+            tok, code = self.relay_tok.get(h, -1), RELAY      # a relayed on_add(entity, world)
+            self.delivered.add(h)
+        elif args and type(args[0]) is int:
+            tok, code = args[0], arg_code('pos', args[1:], kwargs)
+        elif not args and type(kwargs.get('tok')) is int:
+            tok = kwargs['tok']
+            code = arg_code('kw', (), {k: v for k, v in kwargs.items() if k != 'tok'})
+        else:
+            tok, code = -1, -1
+        self.log.append(['call', h, m, tok, code])
         if len(self.log) > 3000:
             raise RuntimeError('log overflow')
         self.recv.append(h)
@@ -184,6 +230,11 @@ class Runner:
             r = False if h in self.gone else bool(d.is_handler(self.obj(h)))
             self.log.append(['is', h, r])
             return
+        if kind in ('create', 'removec', 'replace'):
+            if not self.lifecycle_ok(a):
+                self.log.append(['skip'])
+                self.ctx['skipped_' + kind] = self.ctx.get('skipped_' + kind, 0) + 1
+                return
         self.log.append(['act', a])
         if self.recv:
             where = 'release' if self.rel_depth else 'dispatch'
@@ -199,8 +250,11 @@ class Runner:
             tok = self.tok
             self.tok += 1
             was = self.en
-            args, kwargs = ARGS[a[2]]
-            d.dispatch('n%d' % a[1], tok, *args, **kwargs)
+            mode, args, kwargs = ARGS[a[2]]
+            if mode == 'pos':
+                d.dispatch('n%d' % a[1], tok, *args, **kwargs)
+            else:
+                d.dispatch('n%d' % a[1], tok=tok, **kwargs)
             if was:
                 self.log.append(['end', tok])
         elif kind == 'enable':
@@ -217,6 +271,38 @@ class Runner:
             else:
                 self.en = False
                 d.dispatch_enabled = False
+        elif kind == 'create':
+            h = a[1]
+            self.relay_tok[h] = self.tok
+            self.tok += 1
+            self.spent.add(h)
+            if h % 2:
+                e = d.create_entity(self.objs.pop(h))
+            else:
+                e = d.create_entity()
+                d.add_component(e, self.objs.pop(h))
+            self.rows[h] = (e, self.classes[self.case['hcls'][h - 1]])
+        elif kind == 'removec':
+            h = a[1]
+            e, k = self.rows.pop(h)
+            if h % 3 == 0:
+                d.remove_component(e, k)
+            elif h % 3 == 1:
+                d.delete_entity(e, immediate=True)
+            else:
+                d.delete_entity(e)
+                d.process(0)
+            del e, k
+            self.left_row(h)
+        elif kind == 'replace':
+            h, h2 = a[1], a[2]
+            self.relay_tok[h2] = self.tok
+            self.tok += 1
+            self.spent.add(h2)
+            e, k = self.rows.pop(h)
+            d.add_component(e, self.objs.pop(h2))
+            self.rows[h2] = (e, k)
+            self.left_row(h)
         elif kind == 'clear':
             self.en = True
             d.clear()
@@ -245,6 +331,45 @@ class Runner:
         else:
             raise ValueError(kind)
 
+    def lifecycle_ok(self, a):
+        if self.case.get('dkind') != 'world':
+            return False
+        kind, h = a[0], a[1]
+        if kind == 'create':
+            return h in self.ctl and h not in self.spent and not self.en
+        # a component leaves its row only when that has a simple outcome: it is not executing,
+        # and if its postponed on_add still holds it, no callback (no open snapshot) is around
+        leave = (h in self.rows and h not in self.recv and not (self.relay_pending(h) and self.recv))
+        if kind == 'removec':
+            return leave
+        h2 = a[2]
+        return (leave and h2 in self.ctl and h2 not in self.spent and not self.en and h2 != h
+                and self.case['hcls'][h - 1] == self.case['hcls'][h2 - 1])
+
+    def relay_pending(self, h):
+        return h in self.relay_tok and h not in self.delivered and self.maps_on_add(h)
+
+    def maps_on_add(self, h):
+        return 'on_add' in getattr(self.classes[self.case['hcls'][h - 1]], '__events__', {})
+
+    def left_row(self, h):
+        if not self.relay_pending(h):
+            self.gone.add(h)
+            self.checked.add(h)
+            if self.wrefs[h]() is not None:
+                self.log.append(['survived', h])
+
+    def check_released(self):
+        """A component that left its World row, and whose postponed on_add (if any) was
+        delivered, must be dead: neither the dispatcher nor the World keeps it alive."""
+        for h in self.spent:
+            if h in self.rows or h in self.checked:
+                continue
+            if h in self.delivered or not self.maps_on_add(h):
+                self.checked.add(h)
+                if self.wrefs[h]() is not None:
+                    self.log.append(['survived', h])
+
     def top(self):
         for a in self.case['ops']:
             try:
@@ -254,6 +379,7 @@ class Runner:
             except Exception as ex:          # an error of the implementation is an observation
                 self.log.append(['error', type(ex).__name__, str(ex)[:200]])
             del self.recv[:]
+            self.check_released()
 
 
 def run(case):
@@ -283,6 +409,12 @@ def enc_action(a):
         return 'ARaise'
     if k == 'drop':
         return '(ADrop %s)' % z(a[1])
+    if k == 'create':
+        return '(ACreate %s)' % z(a[1])
+    if k == 'removec':
+        return '(ARemoveC %s)' % z(a[1])
+    if k == 'replace':
+        return '(AReplace %s %s)' % (z(a[1]), z(a[2]))
     raise ValueError(k)
 
 
@@ -303,6 +435,8 @@ def enc_entry(e):
         return '(EEnd %s)' % z(e[1])
     if k == 'exc':
         return 'EExc'
+    if k == 'skip':
+        return 'ESkip'
     return BAD               # 'error', 'survived'
 
 
@@ -485,14 +619,55 @@ def gen_case(rng, mode):
         if any(x.startswith('own') for x in holder):
             w_top[kinds.index('clear')] = 0
             w_cb[kinds.index('clear')] = 0
+    ctl = []
+    if mode >= 10 and dkind == 'world' and rng.random() < 0.7:
+        # Controller-like components of one class, which (mostly) handles on_add
+        cc = rng.choice(usable)
+        if rng.random() < 0.85 and not any(e == ON_ADD for e, _ in classes[cc]['maps']):
+            classes[cc]['maps'].append([ON_ADD, ON_ADD])
+        for _ in range(rng.randint(1, 4)):
+            hcls.append(cc)
+            holder.append('ctl')
+            ctl.append(len(hcls))
+        w_top[kinds.index('clear')] = 0
+        w_cb[kinds.index('clear')] = 0
     maps = final_mappings(classes)
     scripts = []
     p_script = {3: 0.35, 4: 0.5, 10: 0.5}[mode]
-    for h in range(1, nh + 1):
+    fresh = list(ctl)
+    placed = []
+
+    def life_ops():
+        # a component enters the World while disabled; often it is removed / replaced / deleted
+        # again before dispatching is re-enabled (its postponed on_add is then its only holder)
+        out = []
+        r = rng.random()
+        if fresh and (r < 0.6 or not placed):
+            h = fresh.pop(rng.randrange(len(fresh)))
+            out.append(['create', h])
+            placed.append(h)
+            r2 = rng.random()
+            if r2 < 0.3:
+                out.append(['removec', h])
+                placed.remove(h)
+            elif r2 < 0.55 and fresh:
+                h2 = fresh.pop(rng.randrange(len(fresh)))
+                out.append(['replace', h, h2])
+                placed.remove(h)
+                placed.append(h2)
+        elif placed and r < 0.85:
+            out.append(['removec', placed.pop(rng.randrange(len(placed)))])
+        else:
+            out.append(rng.choice([['create', rng.choice(ctl)], ['removec', rng.choice(ctl)]]))
+        return out
+    for h in range(1, len(hcls) + 1):
         ms = []
         for m in sorted(set(maps[hcls[h - 1]].values())):
             if rng.random() < p_script:
-                ms.append([m, gen_script(rng, m, nh, nev, kinds, w_cb)])
+                acts = gen_script(rng, m, nh, nev, kinds, w_cb)
+                if ctl and rng.random() < 0.25:
+                    acts.insert(rng.randint(0, len(acts)), ['removec', rng.choice(ctl)])
+                ms.append([m, acts])
         if ms:
             scripts.append([h, ms])
 
@@ -518,7 +693,9 @@ def gen_case(rng, mode):
             if rng.random() < 0.85:
                 ops.append(['enable', 0])
                 for _ in range(rng.randint(1, 5)):       # the queue
-                    if rng.random() < 0.8:
+                    if ctl and rng.random() < 0.45:
+                        ops.extend(life_ops())
+                    elif rng.random() < 0.8:
                         ops.append(['dispatch', rng.randrange(nev), rng.randrange(len(ARGS))])
                     else:
                         ops.append(top_op())
@@ -526,6 +703,8 @@ def gen_case(rng, mode):
                 ops.append(['enable', 1])
                 if rng.random() < 0.3:
                     ops.append(top_op())
+                if ctl and rng.random() < 0.3:
+                    ops.append(['removec', rng.choice(ctl)])
     return dict(classes=classes, hcls=hcls, holder=holder, eqs=[], scripts=scripts, ops=ops,
                 dkind=dkind)
 
@@ -594,6 +773,10 @@ def stats(cases, traces):
                 class_hierarchies={'%d classes, up to %d bases' % k: v for k, v in sorted(
                     _count((len(c['classes']), max(len(bases_of(x)) for x in c['classes']))
                            for c in cases).items())},
+                lifecycle={k: v for k, v in ctx.items() if k.startswith('skipped_')} | {
+                    'relayed_on_add_delivered': sum(1 for t in traces for e in t.get('log', [])
+                                                    if e[0] == 'call' and e[4] == RELAY)} | {
+                    k: acts.get(k, 0) for k in ('create', 'removec', 'replace')},
                 undecorated_classes=sum(1 for c in cases for x in c['classes']
                                         if not x['names'] and not x['maps']))
 
